@@ -9,7 +9,7 @@ from gvsim.sim import Raised, Sim, sut
 
 PROP = 'C12'
 TIERS = {'quick': {'runs': 2400, 'wall': 100}, 'thorough': {'runs': 60000, 'wall': 1500}}
-REACH = ['nondefault:actuate_door', 'nondefault:pickndrop', 'nondefault:reach_exit_memory', 'nondefault:getting_closer_shortest_path', 'nondefault:bump_into_wall', 'term_fired:reduce_all', 'exit_reached', 'knob:components_through_factories']  # probes / faults that must fire in every batch (reach gaps are reported in the evidence)
+REACH = ['nondefault:actuate_door', 'nondefault:pickndrop', 'nondefault:reach_exit_memory', 'nondefault:getting_closer_shortest_path', 'nondefault:bump_into_wall', 'term_fired:reduce_all', 'exit_reached', 'knob:components_through_factories', 'knob:maze']  # probes / faults that must fire in every batch (reach gaps are reported in the evidence)
 RULE = ('one run = one client (random composition: 1-3 reward components incl. nested reduce_sum with random float '
         'parameters, a termination tree of depth <= 3; or a shipped configuration) under a seeded op list of stateful '
         'steps, functional steps, and direct component calls on (state, action, ARBITRARY next state) triples; each '
